@@ -277,7 +277,352 @@ class C18Gen:
         m = {"name": name, "default": default, "defs": [("Frame", None), ("Wrap", None)] + defs, "trees": trees, "text": "\n".join(lines) + "\n",
              "idkind": idkind, "idtree": idtree, "open_tags": open_tags, "groups": groups, "rows": rows, "ncols": ncols, "mcols": mcols,
              "ext": ext, "lone": lone, "untagged": untagged, "simple": simple, "idcon": idcon, "members": ["value", "aux" if not samecol else "value2"][:nmem]}
+        m.update({"fields": legacy_fields(ncols), "ic": 0, "tcols": list(range(1, 1 + ncols)), "shape": "legacy", "setstyle": "plain", "classname": "MY-CLASS"})
+        m["egroups"] = legacy_egroups(m)
         return m
+
+
+# ---------------------------------------------------------------- information object classes of any shape (round 3)
+
+# the literal of WITH SYNTAX for each field: no word is part of another, of a type name or of a value text
+# (asn1fix_cws.c finds the end of a setting with strstr on the next literal)
+WORDS = {"&id": "IDENT", "&Type": "KIND", "&Aux": "AUXIL", "&crit": "CRIT", "&prio": "PRIO", "&level": "LEVEL", "&Extra": "EXTRA"}
+CRIT_NAMES = ["reject", "ignore", "notify"]          # Crit ::= ENUMERATED { reject(0), ignore(1), notify(2) }
+PRIO_POOL = [0, 1, 7, 9, 42, 99, 127, 128, 255, 256, 1000, 32767]
+
+
+def syntax_fields(items):
+    out = []
+    for it in items:
+        out += [it[1]] if it[0] == "f" else syntax_fields(it[1])
+    return out
+
+
+def syntax_text(fields, items):
+    parts = []
+    for it in items:
+        if it[0] == "f":
+            parts.append("%s %s" % (WORDS[fields[it[1]]["name"]], fields[it[1]]["name"]))
+        else:
+            parts.append("[%s]" % syntax_text(fields, it[1]))
+    return " ".join(parts)
+
+
+def presence_choices(items):
+    """every set of fields an object may set under a WITH SYNTAX tree: the direct fields of a group come together,
+    a nested group only inside its parent"""
+    outs = [frozenset()]
+    for it in items:
+        if it[0] == "f":
+            outs = [o | {it[1]} for o in outs]
+        else:
+            inner = presence_choices(it[1])
+            outs = [o | i for o in outs for i in [frozenset()] + inner]
+    return sorted(set(outs), key=lambda o: (len(o), sorted(o)))
+
+
+def object_text(fields, items, texts):
+    """the object as the WITH SYNTAX tree spells it; texts: field index -> setting text (set fields only)"""
+    parts = []
+    for it in items:
+        if it[0] == "f":
+            parts.append("%s %s" % (WORDS[fields[it[1]]["name"]], texts[it[1]]))
+        else:
+            first = [x for x in it[1] if x[0] == "f"][0][1]
+            if first in texts:
+                parts.append(object_text(fields, it[1], texts))
+    return " ".join(parts)
+
+
+def shape_of(rng, ncols=1, nvals=None, idpos=None, optional_types=(), directed=None):
+    """a class shape: fields in class order and a WITH SYNTAX tree over a permutation of them.
+    directed: None (random) | 'one' (one OPTIONAL value field after the others) | 'first' (an OPTIONAL value field BEFORE the identifier)
+    | 'two' (two independent optional groups) | 'nested' ([CRIT &crit [PRIO &prio]]) | 'joint' ([CRIT &crit PRIO &prio])
+    | 'auxopt' (an OPTIONAL type field no member uses) | 'typefirst' (type field, then identifier, then optional field)"""
+    r = rng
+    fid = {"name": "&id", "kind": "id", "opt": None}
+    ftypes = [{"name": n, "kind": "type", "opt": ("OPTIONAL" if j in optional_types else None)} for j, n in enumerate(["&Type", "&Aux"][:ncols])]
+    crit = lambda opt: {"name": "&crit", "kind": "val", "vtype": "Crit", "opt": opt}
+    prio = lambda opt: {"name": "&prio", "kind": "val", "vtype": "INTEGER", "opt": opt}
+    level = lambda opt: {"name": "&level", "kind": "val", "vtype": "INTEGER", "opt": opt}
+    extra = lambda opt: {"name": "&Extra", "kind": "type", "opt": opt, "unused": True}
+    od = lambda: r.choice(["OPTIONAL", "DEFAULT"])
+    grp = None
+    if directed == "one":
+        fields = [fid] + ftypes + [crit("OPTIONAL")]
+    elif directed == "first":
+        fields = [prio(od()), fid] + ftypes
+    elif directed == "typefirst":
+        fields = ftypes[:1] + [fid] + ftypes[1:] + [crit(od())]
+    elif directed == "two":
+        fields = [fid, crit(od())] + ftypes + [prio(od())]
+    elif directed in ("nested", "joint"):
+        fields = [fid] + ftypes + [crit(od()), prio("OPTIONAL")]
+        grp = directed
+    elif directed == "auxopt":
+        fields = [fid] + ftypes + [extra("OPTIONAL"), level(None)]
+    else:
+        vals = r.shuffle([crit, prio, level])[:r.choice([0, 1, 1, 2, 2, 3]) if nvals is None else nvals]
+        fields = [fid] + ftypes + [v(r.choice([None, "OPTIONAL", "OPTIONAL", "DEFAULT"])) for v in vals]
+        if r.chance(1, 4):
+            fields.append(extra(r.choice([None, "OPTIONAL"])))
+        fields = r.shuffle(fields)
+        if idpos is not None:
+            fields.remove(fid)
+            fields.insert(min(idpos, len(fields)), fid)
+    # WITH SYNTAX: a permutation of the fields; optional ones in groups of their own, two of them sometimes joined or nested
+    idx = list(range(len(fields)))
+    order = idx if directed in ("one", "nested", "joint") else r.shuffle(idx)
+    opt = [i for i in order if fields[i]["opt"]]
+    man = [i for i in order if not fields[i]["opt"]]
+    if grp is None and len(opt) >= 2 and r.chance(1, 3):
+        grp = r.choice(["nested", "joint"])
+    groups = []
+    if grp and len(opt) >= 2:
+        a, b = opt[0], opt[1]
+        groups.append(("g", [("f", a), ("f", b)]) if grp == "joint" else ("g", [("f", a), ("g", [("f", b)])]))
+        opt = opt[2:]
+    groups += [("g", [("f", i)]) for i in opt]
+    items = [("f", i) for i in man]
+    for g in groups:                                   # an optional group anywhere, also first
+        items.insert(r.below(len(items) + 1), g)
+    for g in groups:
+        # asn1fix_cws.c:asn1f_next_literal_chunk climbs ONE level only: a group that ends with a nested group must end the whole
+        # syntax, or the setting before the `]]` swallows the rest of the object (clean refusal, exit 65; seen, avoided)
+        if any(x[0] == "g" for x in g[1]):
+            items.remove(g)
+            items.append(g)
+    return fields, items
+
+
+def field_text(f, idfield):
+    if f["kind"] == "id":
+        return "&id %s" % idfield
+    if f["kind"] == "type":
+        return f["name"] + (" OPTIONAL" if f["opt"] else "")
+    dflt = {"Crit": "ignore", "INTEGER": "7"}[f["vtype"]]
+    return "%s %s%s" % (f["name"], f["vtype"], {None: "", "OPTIONAL": " OPTIONAL", "DEFAULT": " DEFAULT " + dflt}[f["opt"]])
+
+
+def legacy_fields(ncols):
+    return [{"name": "&id", "kind": "id", "opt": None}] + [{"name": n, "kind": "type", "opt": None} for n in ["&Type", "&Aux"][:ncols]]
+
+
+def row_cells(m, row):
+    """the settings of an object by field index: ('val', int) | ('type', name); unset fields are absent"""
+    if "cells" in row:
+        return row["cells"]
+    out = {m["ic"]: ("val", row["id"])}
+    for j, fi in enumerate(m["tcols"]):
+        out[fi] = ("type", row["types"][j])
+    return out
+
+
+def obj_token(m, row):
+    cells = row_cells(m, row)
+    order = row.get("order") or sorted(cells)
+    if not order:
+        return "o:-"
+    return "o:" + ",".join("%d=%s" % (k, ("T:" + cells[k][1]) if cells[k][0] == "type" else
+                                      (id_val_str(m["idkind"], cells[k][1]) if k == m["ic"] else "I%d;" % cells[k][1])) for k in order)
+
+
+def eset_tokens(m):
+    """the set as written for the matrix model (ocaml/drv_c18.ml: c18mx, c18msel, c18alts)"""
+    toks = [str(len(m["egroups"]))]
+    for g in m["egroups"]:
+        toks.append(str(len(g)))
+        for e in g:
+            if e[0] == "o":
+                toks.append(obj_token(m, e[1]))
+            else:
+                toks.append("r:%d:%d" % (len(e[1]), len(e[2])))
+                toks += [obj_token(m, x) for x in e[1]] + [obj_token(m, x) for x in e[2]]
+    return " ".join(toks)
+
+
+def legacy_egroups(m):
+    return [[("o", row) for row in g] for g in m["groups"]]
+
+
+def shape_module(gen, name, directed=None, presence="every", rowsorder=None, setstyle="plain", ncols=None, idkind="int", idpool=None, nrows=None,
+                 optional_types=(), idopt=False, members=None, untagged=False, bigvals=False):
+    """a module whose class has any shape (shape_of) and whose objects set any subset of the optional fields.
+    presence: 'every' = one object per subset the syntax allows (then complete objects up to nrows) | 'random' | 'complete'
+    rowsorder: None (shuffled) | 'incomplete-first' | 'complete-first' | 'alternate'
+    setstyle: plain | objrefs (every object by reference) | refs (Set1 ::= { SetA | SetB }) | refsext ({ SetA, ..., SetB }) | mixed ({ SetA | obj | {..} })
+    optional_types: type columns declared OPTIONAL (and left unset by some objects): the recorded defect C18-unset-type-cell
+    idopt: the identifier field OPTIONAL and unset by some object: C18-unset-identifier-cell"""
+    r = gen.rng
+    default = "AUTOMATIC" if not untagged else r.choice(["EXPLICIT", "IMPLICIT"])
+    ncols = ncols or r.choice([1, 1, 2])
+    fields, items = shape_of(r, ncols=ncols, optional_types=optional_types, directed=directed)
+    if idopt:
+        fields, items = shape_of(r, ncols=ncols, directed="one")
+        fields = [dict(f) for f in fields]
+        fields[0]["opt"] = "OPTIONAL"
+        items = [("f", 1)] + [("f", i) for i in range(2, len(fields) - 1)] + [("g", [("f", 0)]), ("g", [("f", len(fields) - 1)])]
+    ic = [i for i, f in enumerate(fields) if f["kind"] == "id"][0]
+    tcols = [i for i, f in enumerate(fields) if f["kind"] == "type" and not f.get("unused")]
+    choices = presence_choices(items)
+    full = choices[-1]
+    assert len(full) == len(fields)
+    if presence == "complete":
+        pres = [full] * (nrows or r.choice([3, 4, 5]))
+    elif presence == "every":
+        pres = list(choices)
+        while len(pres) < (nrows or 0):
+            pres.append(r.choice([full, full, r.choice(choices)]))
+        if len(pres) < 3:
+            pres += [full] * (3 - len(pres))
+    else:
+        pres = [r.choice(choices) for _ in range(nrows or r.choice([3, 4, 5, 6, 8]))]
+        if all(p == full for p in pres):
+            pres[r.below(len(pres))] = choices[0]
+    inc = [p for p in pres if p != full]
+    com = [p for p in pres if p == full]
+    if rowsorder == "incomplete-first":
+        pres = inc + com
+    elif rowsorder == "complete-first":
+        pres = com + inc
+    elif rowsorder == "alternate":
+        pres = []
+        while inc or com:
+            if inc:
+                pres.append(inc.pop(0))
+            if com:
+                pres.append(com.pop(0))
+    else:
+        pres = r.shuffle(pres)
+    nr = len(pres)
+    pool = idpool or {"int": INT_IDS, "enum": ENUM_IDS}[idkind]
+    ids = r.shuffle(pool)[:nr]
+    assert len(ids) == nr
+    defs, env, trees, rows = [], {}, {}, []
+    for i, p in enumerate(pres):
+        cells, tns = {}, []
+        for c, fi in enumerate(tcols):
+            tn = "%s%d" % ("RA"[c], i + 1)
+            t = gen.SIMPLE[(i * len(tcols) + c + r.below(3)) % len(gen.SIMPLE)] if r.chance(1, 2) else gen.row_type(default, env)[0]
+            tree = resolve(t, default, env)
+            defs.append((tn, t))
+            env[tn] = t
+            trees[tn] = tree
+            tns.append(tn if fi in p else None)
+            if fi in p:
+                cells[fi] = ("type", tn)
+        for fi, f in enumerate(fields):
+            if fi not in p:
+                continue
+            if f["kind"] == "id":
+                cells[fi] = ("val", ids[i])
+            elif f.get("unused"):
+                tn = "X%d" % (i + 1)
+                t = gen.SIMPLE[(i + 3) % len(gen.SIMPLE)]
+                defs.append((tn, t))
+                env[tn] = t
+                trees[tn] = resolve(t, default, env)
+                cells[fi] = ("type", tn)
+            elif f["kind"] == "val" and f["vtype"] == "Crit":
+                cells[fi] = ("val", r.below(3))
+            elif f["kind"] == "val":
+                taken = {abs(ids[i])} | {abs(v[1]) for k, v in cells.items() if v[0] == "val"}
+                vp = [x for x in (PRIO_POOL + ([65536, 2**31, -3] if bigvals else [])) if abs(x) not in taken]
+                cells[fi] = ("val", r.choice(vp))
+        rows.append({"id": ids[i] if ic in p else None, "types": tns, "cells": cells, "order": [fi for fi in syntax_fields(items) if fi in cells]})
+    # the set
+    ext = r.chance(1, 2)
+    extra, n = [], 0
+    idtype = {"int": "INTEGER", "enum": "Kind"}[idkind]
+
+    def otext(row, byref=None):
+        texts = {}
+        for fi, (k, v) in row["cells"].items():
+            f = fields[fi]
+            if k == "type":
+                texts[fi] = v
+            elif f["kind"] == "id":
+                texts[fi] = id_text(idkind, v)
+            elif f["vtype"] == "Crit":
+                texts[fi] = CRIT_NAMES[v]
+            else:
+                texts[fi] = str(v)
+        o = "{ %s }" % object_text(fields, items, texts)
+        if byref if byref is not None else r.chance(1, 4):
+            extra.append("  obj%d OC ::= %s" % (rows.index(row) + 1, o))
+            o = "obj%d" % (rows.index(row) + 1)
+        return o
+
+    compiled, cgroups = rows, None
+    if setstyle in ("plain", "objrefs"):
+        groups = [rows]
+        if ext and nr >= 4 and r.chance(1, 2):
+            k = r.range(2, nr - 2)
+            groups = [rows[:k], rows[k:]]
+        egroups = [[("o", row) for row in g] for g in groups]
+        gt = [" | ".join(otext(row, True if setstyle == "objrefs" else None) for row in g) for g in groups]
+        settext = gt[0] + (", ..." if ext else "") + ("".join(", " + x for x in gt[1:]) if len(gt) > 1 else "")
+        if len(gt) > 1 and not ext:
+            settext = ", ".join(gt)
+    else:
+        # SetA / SetB hold two rows or more each; the rest (mixed) stands next to the references
+        assert nr >= (6 if setstyle == "mixed" else 4)
+        k = 2 if setstyle == "mixed" else r.range(2, nr - 2)
+        ra, rb = rows[:k], rows[k:k + 2] if setstyle == "mixed" else rows[k:]
+        rest = rows[k + 2:] if setstyle == "mixed" else []
+        extra.append("  SetA OC ::= { %s%s }" % (" | ".join(otext(x) for x in ra), r.choice(["", ", ..."])))
+        extra.append("  SetB OC ::= { %s }" % " | ".join(otext(x) for x in rb))
+        ea, eb = ("r", ra, ra), ("r", rb, rb)
+        if setstyle == "refs":
+            settext, egroups, ext = "SetA | SetB", [[ea, eb]], False
+        elif setstyle == "refsext":
+            settext, egroups, ext = "SetA, ..., SetB", [[ea], [eb]], True
+        else:
+            pos = r.below(3)            # the references first, last, or around the objects
+            objs = [("o", x) for x in rest]
+            ot = [otext(x) for x in rest]
+            el = [[ea] + objs + [eb], objs + [ea, eb], [ea, eb] + objs][pos]
+            tx = [["SetA"] + ot + ["SetB"], ot + ["SetA", "SetB"], ["SetA", "SetB"] + ot][pos]
+            settext, egroups = " | ".join(tx) + (", ..." if ext else ""), [el]
+            compiled = ra + rb
+        groups = [ra, rb] + ([rest] if rest else [])
+        cgroups = [ra, rb]
+    # the frame
+    nmem_cols = list(range(len(tcols)))
+    idtag_text, open_tag_text = "", [""] * len(tcols)
+    idbase = {"int": ("i", tagnum("UNIVERSAL", 2), None, None, False), "enum": ("i", tagnum("UNIVERSAL", 10), None, None, False)}[idkind]
+    if default == "AUTOMATIC":
+        idtree = retag(idbase, tagnum("CONTEXT", 0))
+        open_tags = [tagnum("CONTEXT", 1 + j) for j in nmem_cols]
+    else:
+        idtree = idbase
+        open_tags = [None] * len(tcols)
+    lines = ["%s DEFINITIONS %s TAGS ::= BEGIN" % (name, default)]
+    if idkind == "enum":
+        lines.append("  Kind ::= ENUMERATED { %s }" % ", ".join("%s(%d)" % (enum_name(v), v) for v in r.shuffle(ids)))
+    lines.append("  Crit ::= ENUMERATED { reject(0), ignore(1), notify(2) }")
+    uniq = r.chance(3, 4)
+    idfield = idtype + (" UNIQUE" if uniq else "") + (" OPTIONAL" if idopt else "")
+    lines.append("  OC ::= CLASS { %s } WITH SYNTAX { %s }" % (", ".join(field_text(f, idfield) for f in fields), syntax_text(fields, items)))
+    lines.append("  MySet OC ::= { %s }" % settext)
+    lines += extra
+    at = r.choice(["@id", "@.id"])
+    memnames = ["value", "aux"][:len(tcols)]
+    ms = ["id OC.&id({MySet})"] + ["%s OC.%s({MySet}{%s})" % (mn, fields[fi]["name"], at) for mn, fi in zip(memnames, tcols)]
+    lines.append("  Frame ::= SEQUENCE { %s }" % ", ".join(ms))
+    lines.append("  Wrap ::= SEQUENCE { pre BOOLEAN, inner Frame, list SEQUENCE OF Frame }")
+    for tn, t in defs:
+        lines.append("  %s ::= %s" % (tn, type_text(t)))
+    lines.append("END")
+    m = {"name": name, "default": default, "defs": [("Frame", None), ("Wrap", None)] + defs, "trees": trees, "text": "\n".join(lines) + "\n",
+            "idkind": idkind, "idtree": idtree, "open_tags": open_tags, "groups": groups, "rows": rows, "ncols": len(tcols), "mcols": nmem_cols,
+            "ext": ext, "lone": False, "untagged": untagged, "simple": False, "idcon": None, "members": memnames,
+            "fields": fields, "ic": ic, "tcols": tcols, "egroups": egroups, "compiled": compiled, "syntax": syntax_text(fields, items),
+            "shape": directed or "random", "setstyle": setstyle, "unique": uniq,
+            "incomplete": sum(1 for p in pres if p != full), "classname": "OC"}
+    if cgroups:
+        m["cgroups"] = cgroups
+    return m
 
 
 def mtypes(m, row):
@@ -313,8 +658,9 @@ def wrap_der(m, inner, elems):
 
 def frame_tokens(m, mode):
     """mode: spec (the set as written) | comp (the emitted table, long cells) | wide (the emitted table, INTEGER_t cells)"""
-    toks = [mode, model_str(m["idtree"]), ",".join("-" if t is None else str(t) for t in m["open_tags"]), str(len(m["mcols"])), str(len(m["groups"]))]
-    for g in m["groups"]:
+    groups = m["groups"] if mode == "spec" else m.get("cgroups", m["groups"])      # (objects next to a set reference never reach the table)
+    toks = [mode, model_str(m["idtree"]), ",".join("-" if t is None else str(t) for t in m["open_tags"]), str(len(m["mcols"])), str(len(groups))]
+    for g in groups:
         toks.append(str(len(g)))
         for row in g:
             toks.append(id_val_str(m["idkind"], row["id"]))
@@ -323,7 +669,9 @@ def frame_tokens(m, mode):
 
 
 def comp_rows(m):
-    """the rows asn1c keeps, in table order (a lone object is dropped)"""
+    """the rows asn1c keeps, in table order (a lone object is dropped; objects next to a reference to another set are dropped)"""
+    if "compiled" in m:
+        return m["compiled"]
     out = []
     for g in m["groups"]:
         if len(g) != 1:
@@ -357,7 +705,8 @@ import re as _re
 
 _VAL_RE = _re.compile(r"^static const ([A-Za-z_ ]+?) (asn_VAL_\w+) = (.*?);[ \t]*(?:/\*.*?\*/)?[ \t]*$", _re.M)
 _ROWS_RE = _re.compile(r"static const asn_ioc_cell_t (asn_IOS_\w+_rows)\[\] = \{(.*?)\n\};", _re.S)
-_CELL_RE = _re.compile(r'\{ "([^"]*)", (aioc__value|aioc__type), &asn_DEF_(\w+)(?:, &(asn_VAL_\w+))? \}')
+# a cell; an unset field is emitted as `{ "&field",  }` (kind, descriptor and value zero)
+_CELL_RE = _re.compile(r'\{ "([^"]*)",\s*(?:(aioc__value|aioc__type), &asn_DEF_(\w+)(?:, &(asn_VAL_\w+))?)?\s*\}')
 _SET_RE = _re.compile(r"static const asn_ioc_set_t (asn_IOS_\w+)\[\] = \{\s*(\d+), (\d+), (\w+)\s*\};")
 _SEL_RE = _re.compile(r"^select_(\w+?)_type\(.*?const asn_ioc_set_t \*itable = (\w+);\s*size_t constraining_column = (\d+);[^\n]*\n\s*size_t for_column = (\d+);"
                       r".*?const ([A-Za-z_ ]+?) \*constraining_value = ", _re.S | _re.M)
@@ -425,6 +774,9 @@ def parse_ioc_tables(cfile):
     for name, body in _ROWS_RE.findall(text):
         cells = []
         for field, kind, d, v in _CELL_RE.findall(body):
+            if not kind:
+                cells.append({"field": field, "kind": None, "def": None, "ctype": None, "value": None})
+                continue
             cells.append({"field": field, "kind": kind, "def": d, "ctype": vals.get(v, (None, None))[0] if v else None,
                           "value": vals.get(v, (None, ("bad", "no definition of " + v)))[1] if v else None})
         ncells_text = body.count("{ \"")
